@@ -9,6 +9,7 @@
 -/
 import PV.Model.BufFileU
 import PV.Model.ChanFile
+import PV.Model.ChanX
 import PV.Base.DriverIO
 open PV PV.BufFile
 
@@ -71,6 +72,18 @@ def step' (line : String) : String :=
         " realpos=" ++ toString f.realpos ++ " rbuf=" ++ toHexTok f.rbuf ++ " wbuf=" ++ toHexTok f.wbuf ++
         " closed=" ++ (if f.closed then "1" else "0") ++ " left=" ++ toString f.s.inp.length ++
         " atcr=" ++ (if u.atCR then "1" else "0") ++ " nl=" ++ showNL u.nl
+    | _, _, _, _, _, _ => "bad-op"
+  -- a stream whose `_read` may raise: `progx <mode> <bufsize> <dflt> <inp> <rg> <wg> <fails: string of 0/1 | -> <op>*`
+  | "progx" :: mode :: bufsize :: dflt :: inp :: rg :: wg :: fails :: ops =>
+    match intOfString? bufsize, dflt.toNat?, ofHex? inp, parseNats rg, parseNats wg, ops.mapM parseOp with
+    | some bs, some dflt, some inp, some rg, some wg, some ops =>
+      if mode.toList.contains 'U' || !(fails == "-" || fails.toList.all fun ch => ch == '0' || ch == '1') then "bad-op" else
+      let fl : List Bool := if fails == "-" then [] else fails.toList.map (· == '1')
+      let f0 : BF ChanX := { s := { c := { inp := inp, rg := rg, wg := wg }, fails := fl }, dflt := dflt, bufsize := dflt }
+      let (f, rs) := run chanOpsX (setMode f0 mode.toList bs 0) ops
+      " ".intercalate (rs.map showOut) ++ " | out=" ++ toHexTok f.s.c.out ++ " pos=" ++ toString f.pos ++
+        " realpos=" ++ toString f.realpos ++ " rbuf=" ++ toHexTok f.rbuf ++ " wbuf=" ++ toHexTok f.wbuf ++
+        " closed=" ++ (if f.closed then "1" else "0") ++ " left=" ++ toString f.s.c.inp.length
     | _, _, _, _, _, _ => "bad-op"
   -- channel file classes: `progc <file|stderr|stdin> <mode> <bufsize> <inp> <read-grants> <op>*`
   -- (`x` = leaving a `with` block = close()); the writes of these classes are never short
